@@ -189,7 +189,9 @@ def body_real(c):
 # Run level
 # ---------------------------------------------------------------------------------------------
 PROFILE = scenario.profile(maxD=3, extra_budget=(10, 80), cons_x0=("margin",), p_cons=0.2,
-                           max_iter_choices=(None,), tol_mesh_choices=(None,))
+                           max_iter_choices=(None,), tol_mesh_choices=(None,),
+                           # mesh expansion after search sprees (advanced option): the mesh then changes between polls
+                           extra_opts=(("search_mesh_expand", (1, 2), 0.15),))
 N = {"quick": 160, "thorough": 3000}
 N_REAL = {"quick": 4000, "thorough": 200000}
 
